@@ -149,6 +149,68 @@ def generate(ctx):
         m = b''.join((0x80000000 | k).to_bytes(4, 'big') + bytes.fromhex('50000000') * k for _ in range(d)) + tail
         for needle in (b'a', b''):
             ctx.add('traverse_check_string %s %s' % (gen.hexarg(m), gen.hexarg(needle)), kind='malformed')
+    keys_malformed_stream(ctx, ds)
+
+
+def alloc_safe(m):
+    """no byte that, read as the first byte of a container header, carries count bits >= 2^24 (kept for uniformity with
+    the C19 stream; the key walkers do not allocate by count)"""
+    return all(not ((b & 0xE0) in (0x80, 0x40) and (b & 0x1F)) for b in m)
+
+
+def keys_malformed_stream(ctx, ds):
+    """exists_all_keys / exists_any_keys on buffers that are NOT valid encodings (prefixes, one byte changed, hand-made
+    non-canonical layouts): ties the offset-faithful model KeysWalk.v (iterator reads, slices, early exits) to the code"""
+    r = ctx.rng
+    small = [v for v in ds if len(gen.enc(v)) <= 120 and v[0] in 'ao']
+    vals = [0, 1, 2, 3, 0x10, 0x20, 0x30, 0x40, 0x50, 0x60, 0x70]
+    for v in r.sample(small, min(len(small), ctx.scale(120, 3000))):
+        e = gen.enc(v)
+        muts = [e[:i] for i in range(len(e))] if len(e) <= 40 else [e[:r.randrange(len(e))] for _ in range(12)]
+        for b0 in (0x80, 0x40, 0x20, 0x00, 0x60):
+            if e[0] != b0:
+                muts.append(bytes([b0]) + e[1:])
+        for _ in range(14):
+            if len(e) <= 2:
+                break
+            i = r.randrange(2, len(e))
+            muts.append(e[:i] + bytes([r.choice(vals + [e[i] ^ 1, e[i] ^ 0x10, (e[i] + 1) & 0xff])]) + e[i + 1:])
+        ks = common.key_variants(ctx, v)
+        strs = [x[1] for x in (v[1] if v[0] == 'a' else []) if x[0] == 's']
+        pool = ks + strs + [b'', b'a']
+        for m in muts:
+            if not alloc_safe(m):
+                continue
+            h = gen.hexarg(m)
+            for _ in range(2):
+                sub = r.sample(pool, min(len(pool), r.choice([1, 1, 2, 3])))
+                if r.random() < 0.15:
+                    sub.insert(r.randrange(len(sub) + 1), b'\xff\xfe')
+                ctx.add('exists_all_keys %s %s' % (h, gen.hexlist(sub)), kind='malformed')
+                ctx.add('exists_any_keys %s %s' % (h, gen.hexlist(sub)), kind='malformed')
+    w = gen.be32
+    S, NUM, CONT = 0x10000000, 0x20000000, 0x50000000
+    hand = [
+        w(0x40000002) + w(S | 1) + w(S | 1) + w(NUM | 2) + w(NUM | 2) + b'ba' + b'\x50\x01\x50\x02',
+        w(0x40000002) + w(S | 1) + w(S | 9) + w(0) + w(0) + b'ab',
+        w(0x40000002) + w(NUM | 1) + w(CONT | 1) + w(0) + w(0) + b'ab',
+        w(0x40000003) + w(S | 1) + w(S | 1),
+        w(0x80000003) + w(S | 1) + w(NUM | 1) + w(S | 1) + b'aab',
+        w(0x80000003) + w(0) + w(S | 1) + w(S | 7) + b'ab',
+        w(0x80000002) + w(NUM | 9) + w(S | 1) + b'a',
+        w(0x80000002) + w(0x90000001) + w(0x10000001 | 0x0f000000) + b'ab',
+        w(0x80000004) + w(S | 1) + w(S | 1) + b'ab',
+        w(0x20000000) + w(S | 1) + b'a',
+        w(0x2000),
+        b'\x80', b'\x40\x00', b'\x20\x00\x00',
+    ]
+    keysets = [[b'a'], [b'b'], [b'a', b'b'], [b'b', b'a'], [b'zz', b'a'], [b'\xff', b'a'], [b'a', b'\xff'], [b''], []]
+    for m in hand:
+        for mm in [m] + [m[:i] for i in range(4, len(m))]:
+            h = gen.hexarg(mm)
+            for ks in keysets:
+                ctx.add('exists_all_keys %s %s' % (h, gen.hexlist(ks)), kind='malformed')
+                ctx.add('exists_any_keys %s %s' % (h, gen.hexlist(ks)), kind='malformed')
 
 
 def judge(ctx):
